@@ -154,6 +154,7 @@ inductive Res (C H : Type) where
   | hash (h : Option H)
   | events (l : List Event)
   | cur (n : Nat)               -- cursor + 1
+  | cursorErr                   -- CloudCursorError
   | err (e : Err)
   deriving Repr
 
@@ -399,6 +400,23 @@ def drain (fl : Flavour) (s : St C) : St C × List Event :=
   let pending := (s.events.drop s.cursor).zipIdx s.cursor
   ({ s with cursor := max s.cursor s.events.length }, pending.map (fun (pe, i) => translateEvent fl pe i))
 
+/-- the value assigned to `current_cursor`: Python `None`, an `int` (given as `value + 1`, so the
+    initial cursor -1 is `int 0` and the cursor after exactly one consumed event, Python 0, is `int 1`),
+    or anything that is not an `int` -/
+inductive CurVal where
+  | none
+  | int (n : Nat)
+  | other
+  deriving Repr, DecidableEq
+
+/-- `current_cursor.setter` (mock.py:394-402), branch by branch:
+    `if val is None: val = self.latest_cursor`;
+    `if not isinstance(val, int) and val is not None: raise CloudCursorError(val)`; `self._cursor = val` -/
+def setCursor (s : St C) : CurVal → St C × Res C H
+  | .none => ({ s with cursor := s.events.length }, .unit)
+  | .other => (s, .cursorErr)
+  | .int v => ({ s with cursor := v }, .unit)
+
 inductive Op (C : Type) where
   | create (p : Str) (data : C)
   | mkdir (p : Str)
@@ -416,7 +434,7 @@ inductive Op (C : Type) where
   | events
   | latestCursor
   | currentCursor
-  | setCursor (v : Option Nat)       -- the new `_cursor + 1`; `none` = Python None (→ latest)
+  | setCursor (v : CurVal)
   deriving Repr
 
 def liveObj (s : St C) (oid : Str) : Option (Obj C) :=
@@ -441,8 +459,7 @@ def step (c : Cfg) (fl : Flavour) (hc : HashCfg C H) (s : St C) : Op C → St C 
   | .events => let (s', l) := drain fl s; (s', .events l)
   | .latestCursor => (s, .cur s.events.length)
   | .currentCursor => (s, .cur s.cursor)
-  | .setCursor none => ({ s with cursor := s.events.length }, .unit)
-  | .setCursor (some v) => ({ s with cursor := v }, .unit)
+  | .setCursor v => setCursor s v
 
 /-- `MockProvider.__init__` (mock.py:212-216): the root directory object -/
 def init (c : Cfg) (fl : Flavour) : St C :=
